@@ -24,6 +24,26 @@ RULES = {
 }
 
 
+PROPERTIES = ['C12', 'C13', 'C14']
+MANIFEST = {
+    'C12': dict(category='model_checking',
+              technique='TLA+ compact-sparse-Merkle oracle (SparseMerkleRef!RefRoot); TLC enumerates ALL insert/overwrite/delete histories over clustered model keys x 4 embeddings into 256-bit keys, replayed into the real trees; seeded long traces validated by TLC',
+              text='Every history up to MaxLen 3/4 over 4 model keys under 4 embeddings (first-bits / 253-bit shared prefix / bits 0,128,255 / all-zero,all-one,last-bit neighbours) is replayed into storage-backed and in-memory trees and the final root compared with RefRoot of the final map, also for from_set / root_from_set / nodes_from_set; traces over a 20-key adversarial pool are validated event by event (root = RefRoot(map) after every op).',
+              note='Trusts SHA-256 in TLC and the harness plumbing. Histories bounded (MaxLen), trace keys from a seeded adversarial pool.',
+              design_ref='4/C12'),
+    'C13': dict(category='model_checking',
+              technique="TLC trace validation with the spec's node store: storage deltas of every operation applied to the model store; invariants Closed(store, root) and Leaves(store, root) = Entries(map) evaluated after every event; reloads (intact / root removed / deeper node removed / empty root) at random points of the history",
+              text="The harness's observable store logs every node written/removed; SparseMerkle_Trace rebuilds the store and checks after EVERY operation that everything reachable from the root is persisted, hashes to its key and denotes exactly the map; reloaded trees continue the remaining history next to the original and must give oracle roots and proofs; a load with the root node missing must fail; with a deeper node missing every later operation must fail or agree with the oracle.",
+              note="Reload points are sampled (seeded), not exhaustive; the in-memory wrapper's store is not observable (root-only checks there).",
+              design_ref='4/C13'),
+    'C14': dict(category='model_checking',
+              technique='TLC model-checks soundness/completeness of the compact-SMT proof scheme (ProofScheme) on every map over clustered model keys with real SHA-256; oracle proofs for every key of every history replayed against generate_proof; real verifier verdicts on ~20 structured mutations per proof validated against the reference verifier in TLC',
+              text="Proof kind = inclusion iff present, proof bytes equal the oracle's unique proof, inclusion verifies only with the stored value, exclusion only for absent keys, leaf-claims-key / placeholder<->leaf / other key / altered, reordered, truncated, padded-to-257 proof sets get exactly the reference verdict.",
+              note='Mutations are a fixed structured family plus seeded bit flips.',
+              design_ref='4/C14'),
+}
+
+
 def _distinct(pid, events):
     keys = set()
     size = {}
